@@ -59,7 +59,8 @@ def v%d(x):
     return __vrun__("v%d", x)
 ''' % (i, i, i) for i in range(6)))
 
-EXC_KINDS = ["ValueError", "KeyError", "ZeroDivisionError", "CustomErr", "TwoArgErr", "LocErr", "NoMemo"]
+EXC_KINDS = ["ValueError", "KeyError", "ZeroDivisionError", "CustomErr", "TwoArgErr", "LocErr", "NoMemo", "LazyErr", "LazyErr"]
+LAZY_SRC = "class LazyErr(Exception):\n    pass\n"     # lives in a module that only a running body imports
 NFN, NX = 6, 3
 
 
@@ -138,6 +139,9 @@ def _segment(root, case, ops, ledger, first_index):
                 mod = __import__("sys").modules["vc02"]
                 msg = "boom %s %d" % (name, x)
                 k = spec["exc"]
+                if k == "LazyErr":
+                    import vc02lazy            # imported lazily: a process that only replays never runs this line
+                    raise vc02lazy.LazyErr(msg)
                 if k == "TwoArgErr":
                     raise mod.TwoArgErr(msg, "second")
                 if k in ("CustomErr", "LocErr", "NoMemo"):
@@ -145,6 +149,14 @@ def _segment(root, case, ops, ledger, first_index):
                 raise getattr(builtins, k)(msg)
             return build_value(spec)
         builtins.__vrun__ = vrun
+        import os as _os
+        import sys as _sys
+        lib = root + "/pylib"
+        if not _os.path.isdir(lib):
+            _os.makedirs(lib)
+            with open(lib + "/vc02lazy.py", "w") as fh:
+                fh.write(LAZY_SRC)
+        _sys.path.insert(0, lib)
         mod = world.load_module("vc02", PROGRAM)
         for i, op in enumerate(ops):
             k = op[0]
@@ -233,7 +245,7 @@ def _segment(root, case, ops, ledger, first_index):
 
 def replay_class(kind):
     """class name expected when a memoized exception is replayed"""
-    if kind in ("ValueError", "KeyError", "ZeroDivisionError", "CustomErr"):
+    if kind in ("ValueError", "KeyError", "ZeroDivisionError", "CustomErr", "LazyErr"):
         return kind
     return "MementoException"
 
